@@ -61,10 +61,11 @@ theorem only_three_sites : Gen.Budget.casesTouchingBudget = ["OpRange", "OpArray
 /-- `MemoryBudget int = 1e6`; `vm.limit = MemoryBudget` in the prologue -/
 theorem budget_default : Gen.Budget.memoryBudgetDefault = 1000000 ∧ Gen.Budget.limitInit = "MemoryBudget" := by decide
 
-/-- `makeRange` builds `max - min + 1` elements when that is positive and none otherwise (`rangeElems`) -/
+/-- `makeRange` builds no element when `max < min` (tested BEFORE the subtraction, which wraps around for bounds
+    more than MaxInt apart: fix e8a6401) and `max - min + 1` elements otherwise (`rangeElems`) -/
 theorem makeRange_as_modelled :
     Gen.Budget.makeRangeSig = "func(min, max int) []int" ∧
-    Gen.Budget.makeRangeBody = "{ size := max - min + 1 if size <= 0 { return []int{} } rng := make([]int, size) for i := range rng { rng[i] = min + i } return rng }" :=
+    Gen.Budget.makeRangeBody = "{ if max < min { return []int{} } size := max - min + 1 if size <= 0 { return []int{} } rng := make([]int, size) for i := range rng { rng[i] = min + i } return rng }" :=
   ⟨rfl, rfl⟩
 
 /-- the model's flag is by definition the negation of the extracted fact … -/
